@@ -2030,9 +2030,15 @@ def bounds_update_table(db, chk, cfg, rule="BOUNDS.minmax"):
         inner = loops[-1]
         body = kids(inner)[-1]
         lv = None
+        sep = "."
         if inner.get("kind") == "CXXForRangeStmt":
             ds = [d for d in walk(kids(inner)[-2]) if d.get("kind") == "VarDecl"]
             lv = ds[0].get("name") if ds else None
+        elif kids(inner) and isinstance(kids(inner)[0], dict) and kids(inner)[0].get("kind") == "DeclStmt":
+            # an iterator loop: the element is reached through the iterator declared in the for-init
+            ds = [d for d in kids(kids(inner)[0]) if d.get("kind") == "VarDecl"]
+            lv = ds[0].get("name") if ds else None
+            sep = "->"
         if lv is None:
             raise AnalysisBroken("GetBounds %s: loop variable not recognised" % f.sig[:60])
         # the four accumulators, by the comparisons the update makes:  v.c < A  -> A is the minimum of c;  v.c > A  -> the maximum
@@ -2043,7 +2049,7 @@ def bounds_update_table(db, chk, cfg, rule="BOUNDS.minmax"):
                 a0, a1 = canon(kids(y)[0]), canon(kids(y)[1])
                 op = y.get("opcode")[0]
                 for c in "xy":
-                    vc = "%s.%s" % (lv, c)
+                    vc = "%s%s%s" % (lv, sep, c)
                     if a0 == vc and strip(kids(y)[1]).get("kind") == "DeclRefExpr":
                         (amin if op == "<" else amax)[c].append(a1)
                     elif a1 == vc and strip(kids(y)[0]).get("kind") == "DeclRefExpr":
@@ -2060,6 +2066,7 @@ def bounds_update_table(db, chk, cfg, rule="BOUNDS.minmax"):
                 env = {amin["x"][0]: 10, amax["x"][0]: 20, amin["y"][0]: 10, amax["y"][0]: 20, lv + ".x": 15, lv + ".y": 15, lv + "->x": 15, lv + "->y": 15}
                 env[amin[c][0]], env[amax[c][0]] = lo, hi
                 env[lv + "." + c] = v
+                env[lv + "->" + c] = v
                 it = Interp(db, env)
                 try:
                     it.exec(body)
@@ -2134,4 +2141,114 @@ def axis_mirror_rule(db, chk, cfg, rule="AXIS.mirror"):
                 chk.violation(rule, f.qual.split("<")[0], "%s/%s" % (nm, sn), "the twin locals `%s` and `%s` do not read mirrored inputs: `%s` reads %s, `%s` reads %s "
                               "(expected %s) - one of the two was probably copied from the other and not fully edited" %
                               (nm, sn, nm, ax, sn, ay, mirror(ax)), where(decls[sn][0]), cfg=cfg)
+    return n
+
+
+# ---------------------------------------------------------------------------
+# Path1InsidePath2: the vertex vote that decides nesting (C04)
+# ---------------------------------------------------------------------------
+
+def inside_vote_table(db, chk, cfg, rule="T.inside-vote"):
+    """Ownership in a PolyTree is decided by Path1InsidePath2: the vertices of path1 vote (outside +1, inside -1, on the boundary 0); a
+    lead of two is decisive (inside iff the count is negative) and only an equivocal count falls back on the bounding-box midpoint
+    - which is unreliable for non-convex rings, so a clear vote must not be sent there.  Decided: one step of the vote for the three
+    PointInPolygon answers, and the verdict for every count in -3..3."""
+    from ..evalx import _Return, _Break, _Continue
+    f = db.one("Path1InsidePath2")
+    loops = [x for x in kids(f.body) if x.get("kind") in ("DoStmt", "WhileStmt", "ForStmt")]
+    if len(loops) != 1:
+        raise AnalysisBroken("Path1InsidePath2: vote loop not found")
+    lp = loops[0]
+    body = kids(lp)[0] if lp.get("kind") == "DoStmt" else kids(lp)[-1]
+    pip = db.enum("PointInPolygonResult")
+    cnt = None
+    for y in walk(body):
+        if y.get("kind") == "UnaryOperator" and y.get("opcode") in ("++", "--") or (y.get("kind") == "CompoundAssignOperator"):
+            cnt = canon(kids(y)[0])
+            break
+    if cnt is None:
+        raise AnalysisBroken("Path1InsidePath2: vote counter not recognised")
+    n = 0
+    for name, want in (("IsOutside", 1), ("IsInside", -1), ("IsOn", 0)):
+        def hook(nm, argv, nd, name=name):
+            if nm in ("PointInOpPolygon", "PointInPolygon"):
+                return pip.index(name)
+            return NotImplemented
+        it = Interp(db, {cnt: 0, "op": Ref("OP"), "OP.next": Ref("OP2"), "OP.pt": 0, "op->next": Ref("OP2"), "op->pt": 0, "op2": Ref("P2")}, call_hook=hook)
+        try:
+            it.exec(body)
+        except Unsupported as e:
+            raise AnalysisBroken("cannot interpret the vote step of Path1InsidePath2: %s" % e)
+        got = it.env.get(cnt)
+        n += 1
+        chk.instance(rule, {"vertex_is": name, "count_change": got, "cfg": cfg}, ok=(got == want))
+        if got != want:
+            chk.violation(rule, f.qual, "step|" + name, "a vertex that PointInPolygon reports as %s changes the outside count by %s (must be %+d)" % (name, got, want),
+                          where(lp), cfg=cfg)
+    # the verdict: statements after the loop
+    after = kids(f.body)[kids(f.body).index(lp) + 1:]
+    for v in (-3, -2, -1, 0, 1, 2, 3):
+        fell = {"fallback": False}
+
+        def hook2(nm, argv, nd):
+            if nm in ("GetBounds", "GetCleanPath", "MidPoint", "PointInPolygon", "PointInOpPolygon"):
+                fell["fallback"] = True
+                return 0
+            return NotImplemented
+        it = Interp(db, {cnt: v}, call_hook=hook2)
+        verdict = None
+        try:
+            for s0 in after:
+                it.exec(s0)
+                if fell["fallback"]:
+                    break
+        except _Return as r:
+            verdict = r.v
+        except Unsupported:
+            if not fell["fallback"]:
+                raise AnalysisBroken("cannot interpret the verdict of Path1InsidePath2 for a count of %d" % v)
+        if fell["fallback"]:
+            verdict = "fallback"
+        want = True if v <= -2 else (False if v >= 2 else "fallback")
+        if verdict not in ("fallback",):
+            verdict = bool(verdict)
+        n += 1
+        chk.instance(rule, {"outside_count": v, "verdict": verdict, "cfg": cfg}, ok=(verdict == want))
+        if verdict != want:
+            chk.violation(rule, f.qual, "verdict|%d" % v, "with an outside count of %d Path1InsidePath2 %s; a lead of two votes is decisive (inside iff the count is negative) "
+                          "and only -1..1 may fall back on the bounding-box midpoint test (unreliable for non-convex rings)" %
+                          (v, "uses the midpoint fallback" if verdict == "fallback" else "answers %s" % verdict), where(after[0]) if after else f.where, cfg=cfg)
+    return n
+
+
+# ---------------------------------------------------------------------------
+# FLOAT.double-only: no single-precision arithmetic (C01, C13, C18)
+# ---------------------------------------------------------------------------
+
+def no_single_precision(db, chk, cfg, rule="FLOAT.double-only"):
+    """Coordinates go up to 2^62; every floating-point intermediate of the library is a double (53-bit mantissa, and the integer paths
+    are guarded separately).  A `float` anywhere - a variable, a cast, or a call of a single-precision math function (nearbyintf,
+    roundf, sqrtf, ...) - silently drops 29 bits."""
+    n = 0
+    bad = []
+    for f in db.funcs:
+        if f.body is None or f.is_pattern or "Clipper2Lib" not in (f.file or ""):
+            continue
+        n += 1
+        for y in walk(f.body):
+            t = qt(y) if isinstance(y.get("type"), dict) else ""
+            if t in ("float", "const float") or t.startswith("float ") or t.endswith(" float"):
+                bad.append((f, y))
+                break
+            if y.get("kind") == "CallExpr":
+                nm = db.callee(y)[0] or ""
+                if nm in ("nearbyintf", "roundf", "sqrtf", "sinf", "cosf", "fabsf", "floorf", "ceilf", "lroundf", "llroundf", "rintf", "lrintf", "atan2f", "hypotf", "powf"):
+                    bad.append((f, y))
+                    break
+    chk.instance(rule, {"functions_scanned": n, "cfg": cfg}, ok=not bad)
+    for f, y in bad[:3]:
+        chk.violation(rule, f.qual, canon(y)[:50], "single-precision floating point in %s: `%s` has type float / is a float math function; coordinates beyond 2^24 lose "
+                      "their low bits" % (f.qual, canon(y)[:70]), where(y), cfg=cfg)
+    if n < 200:
+        raise AnalysisBroken("FLOAT.double-only: only %d library functions scanned" % n)
     return n
